@@ -53,6 +53,17 @@ CLAIMED = {
         note="Python slicing and numpy argsort/sort/permutation/fancy-indexing contracts assumed; requested count proved for the listed values {1,3,50}; "
              "membership of each counted row in the top fraction is bounded only",
         ref="3/C14"),
+    "C06": dict(
+        text="Proof: for every number of variables and every assignment of distinct indices, each prior's value is the sum of the "
+             "named log-densities on its support (and the -1e100 stand-in outside), its gradient is the formula and the symbolic "
+             "derivative of the log-density, its draw is the numpy law with matching parameters, its bounds are its support; for every "
+             "listed component configuration with symbolic distinct indices the joint value is the component sum and gradient and bounds "
+             "are routed to the component's own indices; Posterior is likelihood+prior with exact negatives; initial guesses are the "
+             "first n of all prior draws ranked by cost. Bounded: scipy.stats comparison, quadrature normalisation, random layouts, draws.",
+        note="numpy Generator parametrisations assumed (normal(loc,scale), exponential(scale), uniform(low,high)); named densities are "
+             "normalised (textbook; numerically checked in the bounded layer); joint configurations: the 9 listed class sequences with "
+             "component sizes <= 2; sorted() contract assumed; draws' sample routing is bounded only",
+        ref="3/C06"),
     "C08": dict(
         text="Proof: for every number of chains, temperature ladder and proposed pair, the real swap() code exchanges iff "
              "u <= exp((1/T_i-1/T_j)(L_j-L_i)) with L the untempered log-densities, hands chain i exactly (x_j, L_j) and chain j (x_i, L_i), "
